@@ -108,8 +108,10 @@ def Call.argFrom : Call → Addr → Addr
 structure Env where
   caller : Addr
   origin : Addr
+  self : Addr     -- the account of the precompile address itself (a holder like any other)
+  value : Nat     -- msg.value of this call
 
-inductive Err | unknownMethod | writeProtection | disabled | method | allowance | shares | unknownStep
+inductive Err | unknownMethod | writeProtection | disabled | method | allowance | shares | unknownStep | value
   deriving DecidableEq, Repr
 
 /-- `handlerTransferShares`: the delegation of `p` must cover `s`; a transfer to oneself changes nothing (it returns
@@ -445,6 +447,56 @@ def isShareCall : Call → Bool
   | .approve _ _ | .transferShares _ _ | .transferFromShares _ _ _ => true
   | _ => false
 
+/-! ### msg.value: the EVM credits it to the precompile account, the method hands `taken` back out of that account -/
+
+def Call.numArg (call : Call) (name : String) : Nat :=
+  match call, name with
+  | .crossChain a _ _, "Amount" => a
+  | .crossChain _ f _, "Fee" => f
+  | .increaseFee _ f, "Fee" => f
+  | _, _ => 0
+
+def evalVE (v : Nat) (arg : String → Nat) : VE → Nat
+  | .value => v
+  | .arg n => arg n
+  | .add a b => evalVE v arg a + evalVE v arg b
+  | .const n => n
+  | .unknown _ => 0
+
+def veKnown : VE → Bool
+  | .unknown _ => false
+  | .add a b => veKnown a && veKnown b
+  | _ => true
+
+/-- `if lhs.Cmp(rhs) op k { return err }` does NOT fire -/
+def guardPasses (v : Nat) (arg : String → Nat) (g : VGuard) : Bool :=
+  !cmpHolds g.op (cmpInt (evalVE v arg g.lhs) (evalVE v arg g.rhs)) g.k
+
+def flowKnown (f : ValueFlow) : Bool :=
+  veKnown f.taken && f.guards.all (fun g => veKnown g.lhs && veKnown g.rhs) && f.recipient == "caller" &&
+  (f.branch == "value.Cmp(big.NewInt(0)) == 1" ||
+   f.branch == "value.Cmp(big.NewInt(0)) == 1 && fxcontract.IsZeroEthAddress(args.Token)")
+
+def isPayable : Call → Bool
+  | .crossChain _ _ _ | .increaseFee _ _ => true
+  | _ => false
+
+/-- the native-coin leg of a payable method (origin token: the harness and the model always pass token = 0):
+EVM transfer caller → precompile account of msg.value; branch `value > 0`; the regenerated comparisons; then
+`handlerOriginToken(taken)`: precompile account → caller -/
+def valueLayer (f : ValueFlow) (env : Env) (call : Call) (w : World) : Except Err World :=
+  if !flowKnown f then .error .unknownStep else
+  let v := env.value
+  if env.caller = env.self then .error .value else     -- a precompile account does not call itself
+  if w.bal env.caller < v then .error .value else
+  let b1 := upd (upd w.bal env.caller (w.bal env.caller - v)) env.self (w.bal env.self + v)
+  if v = 0 then .error .value        -- the other branch: ERC-20 path with the zero token address
+  else if !f.guards.all (guardPasses v call.numArg) then .error .value
+  else
+    let t := evalVE v call.numArg f.taken
+    if b1 env.self < t then .error .value
+    else .ok { w with bal := upd (upd b1 env.self (b1 env.self - t)) env.caller (upd b1 env.self (b1 env.self - t) env.caller + t) }
+
 /-- what the dispatcher model needs of a row of the regenerated method table -/
 structure Row where
   contract : String
@@ -458,6 +510,13 @@ def effectGen (r : Row) (env : Env) (call : Call) (w : World) : Except Err World
   if isShareCall call then
     match closures.find? (fun c => c.abiName == call.name && c.contract == r.contract) with
     | some c => if c.single then runClosure env call c.steps w else .error .unknownStep
+    | none => .error .unknownStep
+  else if isPayable call then
+    match valueFlows.find? (fun f => f.abiName == call.name) with
+    | some f =>
+      match valueLayer f env call w with
+      | .ok w1 => effect r.info (resolve r.info.payer env call) env.caller call w1
+      | .error e => .error e
     | none => .error .unknownStep
   else effect r.info (resolve r.info.payer env call) env.caller call w
 
@@ -518,10 +577,23 @@ def specEffect (c : Addr) (call : Call) (w : World) : Except Err World :=
   | .transferFromShares f _ _ => effect ⟨"transferFromShares", false, .argFrom, true⟩ f c call w
   | _ => effect ⟨call.name, false, .caller, false⟩ c c call w
 
-def specRun (dis : List (List Char)) (ro : Bool) (addr mid : List Char) (c : Addr) (call : Call) (w : World) : Res :=
+/-- the native coins a payable method takes out of the precompile account are exactly the msg.value of this call (> 0,
+covered by the caller's balance): `crossChain` amount + fee, `increaseBridgeFee` fee -/
+def specValueOk (env : Env) (call : Call) (w : World) : Bool :=
+  match call with
+  | .crossChain a f _ =>
+    decide (env.caller ≠ env.self) && decide (0 < env.value) && env.value == a + f && decide (env.value ≤ w.bal env.caller)
+  | .increaseFee _ f =>
+    decide (env.caller ≠ env.self) && decide (0 < env.value) && env.value == f && decide (env.value ≤ w.bal env.caller)
+  | _ => true
+
+def specEffectV (env : Env) (call : Call) (w : World) : Except Err World :=
+  if specValueOk env call w then specEffect env.caller call w else .error .value
+
+def specRun (dis : List (List Char)) (ro : Bool) (addr mid : List Char) (env : Env) (call : Call) (w : World) : Res :=
   if ro then ⟨.error .writeProtection, false⟩
   else if specDisabled dis addr mid then ⟨.error .disabled, false⟩
-  else ⟨specEffect c call w, true⟩
+  else ⟨specEffectV env call w, true⟩
 
 /-! ## histories: any list of calls by any callers, call kinds and governance settings -/
 
